@@ -296,7 +296,7 @@ EXTRA = {
            "adapter of the other kind next to them), soft-masked reads, near misses and reads with N in the adapter copy; "
            "for an indexed adapter a match is demanded when it is the only one occurring at the anchored end of an "
            "ACGT-only read. Parameters drawn include ;indels against --no-indels; reads with N get siblings that the index "
-           "cannot tell apart.",
+           "cannot tell apart; very tolerant adapters (e=0.5/0.6, no indels) with all tolerated substitutions used up.",
     "C03": "--action=retain with a linked adapter (parts exact or with one edit) is checked against the interval from "
            "the start of the 5' match to the end of the 3' match.",
     "C06": "Scenarios include name- and quality-rewriting options, main output on standard output (with --fasta), "
@@ -304,13 +304,13 @@ EXTRA = {
            "state carried inside a worker from one read to the next becomes visible; a real-process sub-check requests "
            "several cores while the process is restricted to one CPU.",
     "C07": "Reads of tens of kilobases (occurrence across power-of-two offsets) and a pickle round trip of the adapter "
-           "are included.",
+           "are included; one mode builds a twin of the adapter with the other indels setting first.",
     "C08": "Sets with mixed per-adapter indel settings and tolerances, duplicate sequences, soft-masked reads; a history "
            "sub-check feeds several reads (many with N) to one index object and demands the answer of a fresh index.",
     "C09": "The command-line sub-check leaves indexing at its default where no index can be built, draws complete-tie "
            "families (one sequence as ^, $ and regular adapter), repeats the run with the same adapters as R2 adapters, "
            "and asserts the documented required/optional flags of linked adapters.",
-    "C13": "The command-line slice includes --nextseq-trim 0 and 5'-only cutoffs (-q N,0).",
+    "C13": "The command-line slice includes --nextseq-trim 0, 5'-only cutoffs (-q N,0) and runs with two worker processes.",
     "C15": "A real-process sub-check demultiplexes into more files than a lowered soft open-file limit allows at once.",
     "C16": "The command-line slice also runs with 2-3 cores and adds direction-sensitive later stages (--poly-a, -l, "
            "-x/-y) after the orientation decision.",
